@@ -28,56 +28,6 @@ theorem mergeVal_nonobj (lv rv : Vers) (p : String) (lval v : Val) (h : v.isObj 
     mergeVal lv rv p lval v = if ver rv p > ver lv p then v else lval := by
   cases v <;> simp_all [mergeVal, Val.isObj]
 
-/-- The merge of flat contexts, key by key: the right value wins exactly when the key is new
-    on the left or its version on the right is strictly higher. -/
-theorem mergeKv_flat_get (lv rv : Vers) :
-    ∀ (r l : Dict), FlatD r → UniqueKeys r → ∀ k,
-      get? (mergeKv lv rv none l r) k =
-        match get? r k with
-        | none => get? l k
-        | some v => match get? l k with
-          | none => some v
-          | some lval => if ver rv k > ver lv k then some v else some lval := by
-  intro r
-  induction r with
-  | nil => intro l _ _ k; simp [mergeKv]
-  | cons p rest ih =>
-    obtain ⟨k', v'⟩ := p
-    intro l hf hu k
-    have hf' : FlatD rest := fun q hq => hf q (List.mem_cons_of_mem _ hq)
-    have hv' : v'.isObj = false := hf (k', v') (List.mem_cons_self)
-    have hu' : UniqueKeys rest := by
-      unfold UniqueKeys at *; simp only [List.map_cons, List.nodup_cons] at hu; exact hu.2
-    have hk' : k' ∉ rest.map (·.1) := by
-      unfold UniqueKeys at hu; simp only [List.map_cons, List.nodup_cons] at hu; exact hu.1
-    by_cases hk : k' = k
-    · subst hk
-      have hr : get? rest k' = none := get?_none_of_not_mem rest k' hk'
-      cases hl : get? l k' with
-      | none =>
-        simp only [mergeKv, hl]
-        rw [ih _ hf' hu' k']
-        simp [hr, get?_append, hl, get?_cons]
-      | some lval =>
-        simp only [mergeKv, hl]
-        rw [ih _ hf' hu' k']
-        simp only [hr, get?_cons, beq_self_eq_true, if_true, get?_set_self, path,
-          mergeVal_nonobj _ _ _ _ _ hv']
-        split <;> simp
-    · have hb : (k' == k) = false := by simpa using hk
-      cases hl : get? l k' with
-      | none =>
-        simp only [mergeKv, hl]
-        rw [ih _ hf' hu' k]
-        have : get? (l ++ [(k', v')]) k = get? l k := by
-          simp only [get?_append]
-          cases get? l k <;> simp [get?_cons, hb]
-        simp only [this, get?_cons, hb, Bool.false_eq_true, if_false]
-      | some lval =>
-        simp only [mergeKv, hl]
-        rw [ih _ hf' hu' k]
-        simp only [get?_set_other _ _ _ _ hk, get?_cons, hb, Bool.false_eq_true, if_false]
-
 theorem ver_mergeVers (l r : Vers) (hu : UniqueKeys r) (k : String) :
     ver (mergeVers l r) k = max (ver l k) (ver r k) := by
   unfold mergeVers
@@ -98,16 +48,6 @@ theorem ver_mergeVers (l r : Vers) (hu : UniqueKeys r) (k : String) :
     · have hb : (k' == k) = false := by simpa using hk
       simp [ver, get?_set_other _ _ _ _ hk, get?_cons, hb]
 
-
-theorem leafKeys_flat (pub : Dict) (hf : FlatD pub) : leafKeysKv none pub = pub.map (·.1) := by
-  induction pub with
-  | nil => simp [leafKeysKv]
-  | cons p rest ih =>
-    obtain ⟨k, v⟩ := p
-    have hv : v.isObj = false := hf (k, v) (List.mem_cons_self)
-    have hr : FlatD rest := fun q hq => hf q (List.mem_cons_of_mem _ hq)
-    simp only [leafKeysKv, List.map_cons, ih hr, path]
-    cases v <;> simp_all [leafKeysVal, Val.isObj]
 
 theorem ver_bump (vs : Vers) (keys : List String) (k : String) :
     ver (bump vs keys) k = ver vs k + keys.count k := by
